@@ -64,6 +64,16 @@ pub const R_NET: &[&str] = &[
     "*$removeparam=utm",
     "bar$badfilter",
     "||ads.net^$badfilter",
+    // "twins": rules that differ only in an attribute that a structural id / dedup key could miss
+    // (tag, sign of the domain list, exception + important)
+    "@@bar$tag=t1",
+    "ads$important,tag=t1",
+    "ads$important,tag=t2",
+    "bar$domain=example.com|tracker.co.uk",
+    "bar$domain=~example.com|~tracker.co.uk",
+    "@@ads$important",
+    "||ads.net^$csp=d1,tag=t1",
+    "||ads.net^$csp=d1,tag=t2",
 ];
 
 /// Hosts-format lines (added through a second `add_filters` call with `FilterFormat::Hosts`).
